@@ -203,20 +203,43 @@ func classifyDeath(prop string, runErr error, stderr string, inf core.Info) (sig
 		if j := strings.IndexByte(line, '\n'); j >= 0 {
 			line = line[:j]
 		}
-		return prop + "/process-death/fatal-" + sanitize(line) + "@" + core.RepoFrame(stderr[i:]), shortErr(stderr[i:], 6000)
+		return prop + "/process-death/fatal-" + sanitize(line) + "@" + core.RepoFrame(stderr[i:]) + deathTag(stderr, i), shortErr(stderr[i:], 6000)
 	case strings.Contains(stderr, "panic: "):
 		i := strings.Index(stderr, "panic: ")
 		line := stderr[i+len("panic: "):]
 		if j := strings.IndexByte(line, '\n'); j >= 0 {
 			line = line[:j]
 		}
-		return prop + "/process-death/" + core.PanicClass(line) + "@" + core.RepoFrame(stderr[i:]), shortErr(stderr[i:], 6000)
+		return prop + "/process-death/" + core.PanicClass(line) + "@" + core.RepoFrame(stderr[i:]) + deathTag(stderr, i), shortErr(stderr[i:], 6000)
 	case strings.Contains(stderr, "VERIF-FATALF"):
 		return prop + "/process-death/log-fatal", shortErr(stderr, 3000)
 	case code == 137 || strings.Contains(stderr, "signal: killed"):
 		return "", ""
 	}
 	return "", ""
+}
+
+// deathTag lets an engine qualify process-death signatures: if it printed
+// "VERIF-DEATH-TAG: <tag>" to stderr before executing a plan, the tag of the
+// plan that was running when the process died (the last one before offset
+// upto) is appended as "/<tag>". Engines that print nothing are unaffected.
+func deathTag(stderr string, upto int) string {
+	const key = "VERIF-DEATH-TAG: "
+	if upto > len(stderr) {
+		upto = len(stderr)
+	}
+	i := strings.LastIndex(stderr[:upto], key)
+	if i < 0 {
+		return ""
+	}
+	tag := stderr[i+len(key) : upto]
+	if j := strings.IndexByte(tag, '\n'); j >= 0 {
+		tag = tag[:j]
+	}
+	if tag = sanitize(strings.TrimSpace(tag)); tag == "" {
+		return ""
+	}
+	return "/" + tag
 }
 
 func sanitize(s string) string {
@@ -471,7 +494,8 @@ func execPlanSignatures(b *built, prop string, plan json.RawMessage, inf core.In
 	os.WriteFile(pf, plan, 0o644)
 	out := filepath.Join(dir, "out.jsonl")
 	inflight := filepath.Join(dir, "inflight")
-	cfg := core.WorkerConfig{Mode: "plans", Property: prop, Plans: []string{pf}, Out: out, Inflight: inflight}
+	trace := os.Getenv("VERIF_TRACE") != ""
+	cfg := core.WorkerConfig{Mode: "plans", Property: prop, Plans: []string{pf}, Out: out, Inflight: inflight, Trace: trace}
 	cmd, err := b.workerCmd(cfg, filepath.Join(dir, "cfg"), memLimit(b))
 	if err != nil {
 		return nil
@@ -483,8 +507,19 @@ func execPlanSignatures(b *built, prop string, plan json.RawMessage, inf core.In
 	readRecords(out, func(r core.Record) {
 		for _, v := range r.Outcome.Violations {
 			sigs[v.Signature] = true
+			if trace {
+				fmt.Printf("violation: %s\n  %s\n", v.Signature, v.Message)
+			}
+		}
+		if trace {
+			for _, l := range r.Outcome.Trace {
+				fmt.Println(l)
+			}
 		}
 	})
+	if trace && runErr != nil {
+		fmt.Println(shortErr(stderr.String(), 8000))
+	}
 	if runErr != nil {
 		if s, _ := classifyDeath(prop, runErr, stderr.String(), inf); s != "" {
 			sigs[s] = true
